@@ -102,6 +102,12 @@ def run(ch, build):
     # whatever was received, the next session-less datagram carries the null header
     scripts += [["setbytes:6=%d;7=%d;10=%d;13=%d" % (ch.rng.randrange(1, 256), ch.rng.randrange(256), ch.rng.randrange(1, 256), ch.rng.randrange(256))]
                 for _ in range(40)]
+    # ... and when such a reply is NOT the end of the command - it carries node busy / timeout, is garbage behind the
+    # wrapper, or answers another command - the retransmission that follows carries the null header again
+    hdr = lambda: "setbytes:5=%d;6=%d;7=%d;10=%d;13=%d" % (ch.rng.choice([0x00, 0x40, 0x80, 0xc0]), ch.rng.randrange(1, 256), ch.rng.randrange(256),
+                                                           ch.rng.randrange(1, 256), ch.rng.randrange(256))
+    scripts += [[a + "|" + hdr(), "ok"] for a in ("busy", "c3", "busy", "truncbody") for _ in range(6)]
+    scripts += [["busy|" + hdr(), "c3|" + hdr(), "ok"] for _ in range(6)]
     ch.rng.shuffle(scripts)
     scns = hist.build_scenarios(ch, False, scripts)
     outs = conn.run_scenarios(scns)
